@@ -1,5 +1,7 @@
 #!/usr/bin/env python3
-"""tools/refresh_seeded.py [ids...] — re-run, against every stored seeded change, the quick checks recorded for it (apply the
+"""EVIDENCE-NOTE: the checks run here rewrite /verif/evidence/*.json from a MUTATED tree; re-run `./check Cxx --tier quick` on the
+unchanged tree for every property touched before committing.
+tools/refresh_seeded.py [ids...] — re-run, against every stored seeded change, the quick checks recorded for it (apply the
 patch to /repo, run, undo) and rewrite `checks_run` / `detected_by` in its meta.json, so that the table in seeded/README.md
 describes the final state of the checks.  The confirmation step (tests, demonstration) is not repeated."""
 import json, os, subprocess, sys, time, glob
